@@ -192,6 +192,32 @@ fn channels(rounds: usize, rng: &mut Lcg) {
     }
 }
 
+// the decimal Display stand-in of the harness environment (extracted from harness/env.rs by
+// bin/validate_standins) against std's formatter
+mod dec_extracted;
+struct ViaI64(i64);
+impl std::fmt::Display for ViaI64 {
+    fn fmt(&self, f: &mut std::fmt::Formatter<'_>) -> std::fmt::Result { dec_extracted::dec::i64_display(&self.0, f) }
+}
+struct ViaUsize(usize);
+impl std::fmt::Display for ViaUsize {
+    fn fmt(&self, f: &mut std::fmt::Formatter<'_>) -> std::fmt::Result { dec_extracted::dec::usize_display(&self.0, f) }
+}
+fn decimals(rounds: usize, rng: &mut Lcg) {
+    let mut check = |v: i64| {
+        assert_eq!(format!("3:seqi{}e", ViaI64(v)), format!("3:seqi{}e", v), "i64 decimal");
+        let u = v as usize;
+        assert_eq!(format!("{}:", ViaUsize(u)), format!("{}:", u), "usize decimal");
+    };
+    for v in [0i64, 1, -1, 9, 10, -10, 99, 100, 999, 1000, i64::MAX, i64::MIN, i64::MIN + 1, 1 << 32, -(1 << 32)] { check(v) }
+    for _ in 0..rounds {
+        let a = rng.below(u32::MAX as u64);
+        let b = rng.below(u32::MAX as u64);
+        let v = ((a << 32) | b) as i64;
+        check(v >> (rng.below(64) as u32));
+    }
+}
+
 fn main() {
     let seed: u64 = std::env::var("VERIF_SEED").ok().and_then(|s| s.parse().ok()).unwrap_or(0);
     let mut rng = Lcg(seed ^ 0x9e3779b97f4a7c15);
@@ -199,5 +225,6 @@ fn main() {
     lru(rounds, &mut rng);
     maps(rounds, &mut rng);
     channels(rounds, &mut rng);
-    println!("stand-ins agree with the real crates on {} random sequences each (lru, vcoll, flume)", rounds);
+    decimals(rounds, &mut rng);
+    println!("stand-ins agree with the real crates on {} random sequences each (lru, vcoll, flume); decimal Display stub agrees with std on {} values", rounds, rounds);
 }
